@@ -2,7 +2,7 @@
    Statement-only file.  Model: Codec/Codec.v (numpy-combinator level: floor_divide, wrapping shifts,
    diff/nonzero, reduceat, bit-by-bit decode + lexsort + split).  Spec: Codec/Codec_Spec.v. *)
 From Coq Require Import Sorted.
-From SA Require Import Base.Prelude Codec.Codec Codec.Codec_Spec Codec.Codec_Proofs.
+From SA Require Import Base.Prelude Codec.Codec Codec.Codec_Spec Codec.Codec_Proofs Codec.Codec_Proofs2 Kernels.Spec.
 Open Scope N_scope.
 
 (* ps strictly increasing in (key, position), key < 2^28, position < 2^18 *)
@@ -42,5 +42,20 @@ Proof.
   split; [repeat constructor; cbn; lia|]. vm_compute. reflexivity.
 Qed.
 
-(* Still only checked by correspondence (model = spec = implementation on generated inputs), not yet proved:
-   slice by a sorted key set = encoding of the filtered pairs; boundary encoding = per-segment encodings. *)
+(* slicing by a sorted set of (uint64) keys = encoding only the pairs with those keys *)
+Theorem C13_slice_by_keys : forall ps ks, sorted2 ps -> bounded ps ->
+  Sorted N.lt ks -> Forall (fun k => k < 2 ^ 64) ks ->
+  N.of_nat (length ps) < 2 ^ 62 -> N.of_nat (length ks) < 2 ^ 62 ->
+  slice_keys (encode (map fst ps) (map snd ps)) ks = Done (slice_spec ps ks).
+Proof. exact slice_keys_correct_real. Qed.
+Print Assumptions C13_slice_by_keys.
+
+(* encoding several non-empty sequences at once with boundaries = encoding each separately
+   (including two sequences that meet inside one 18-position word) *)
+Theorem C13_boundaries : forall segs,
+  Forall (fun s => sorted2 s /\ bounded s /\ s <> []) segs -> segs <> [] ->
+  N.of_nat (length (concat segs)) < 2 ^ 62 ->
+  let flat := concat segs in
+  encode_b (map fst flat) (map snd flat) (starts segs) = Done (boundaries_spec segs).
+Proof. exact encode_b_correct. Qed.
+Print Assumptions C13_boundaries.
